@@ -3,7 +3,7 @@ CONSTANTS
   MaxLen = 3
   Kinds = {"dict", "odict", "mproxy", "cmap", "dc", "dcslots", "plain", "slotsonly", "varsonly", "nt",
            "list", "tuple", "set", "frozenset", "deque", "str", "bytes", "gen", "iter", "citer"}
-  Shapes = {"s", "z", "p", "l", "t", "s2", "c"}
+  Shapes = {"s", "z", "p", "l", "t", "s2", "c", "e"}
   Excused = {"mixed_first_pair"}
   Emit = FALSE
 INVARIANT Refines
